@@ -63,6 +63,7 @@ func freshBs() match.Bindings {
 	return match.Bindings{"n": map[string]interface{}{"k": float64(1), "deep": map[string]interface{}{"z": []interface{}{}}},
 		"arr": []interface{}{float64(1), float64(2)}, "gone": "here"}
 }
+
 var propsMode = 0 // 0: nested values, 1: empty, 2: nil (the same for every execution of a case)
 
 func freshProps() core.StepProps {
@@ -188,6 +189,32 @@ var loops = map[string]string{
 }
 var loopNames = []string{"tight", "counter", "recursion", "props", "arrays", "strings", "nested", "finite"}
 
+// scripts that end by themselves, in every way an execution can end: whatever the execution started
+// (the watcher goroutine) must end with the call on each of these paths
+var finite = map[string]string{
+	"finite":          loops["finite"],
+	"finite-null":     `return null;`,
+	"finite-nothing":  `var x = 1;`,
+	"finite-scalar":   `return 42;`,
+	"finite-array":    `return [1, 2];`,
+	"finite-throw":    `throw "x";`,
+	"finite-throwobj": `throw {toString: function() { throw new Error("y"); }};`,
+	"finite-getter":   `return {get x() { throw new Error("z"); }};`,
+	"finite-cyclic":   `var a = []; a.push(a); return a;`,
+	"finite-badout":   `_.out(function() { return 1; }); return _.bindings;`,
+	"finite-syntax":   `return eval("(");`,
+}
+var finiteNames = []string{"finite", "finite", "finite-null", "finite-nothing", "finite-scalar", "finite-array", "finite-throw", "finite-throwobj", "finite-getter",
+	"finite-cyclic", "finite-badout", "finite-syntax"}
+
+func init() {
+	for k, v := range finite {
+		loops[k] = v
+	}
+}
+
+func isFinite(name string) bool { _, is := finite[name]; return is }
+
 func timeCase(id int) O {
 	in := ecmascript.NewInterpreter()
 	par := []int{1, 1, 2, 4, 16, 64}[rng.Intn(6)]
@@ -197,23 +224,43 @@ func timeCase(id int) O {
 	time.Sleep(5 * time.Millisecond)
 	gBefore := runtime.NumGoroutine()
 	type one struct {
-		Script                            string
-		DeadlineMs, CancelMs              int
-		Start, CtxDone, Ret               int
-		Err                               string
-		Hung                              bool
-		ViaWalk                           bool
-		WalkNode, WalkErrText             string
+		Script                string
+		DeadlineMs, CancelMs  int
+		Start, CtxDone, Ret   int
+		Err                   string
+		Hung                  bool
+		ViaWalk               bool
+		WalkNode, WalkErrText string
 	}
 	res := make([]one, par)
+	// scheduling jitter of this very moment: how late a goroutine that sleeps 1 ms wakes up (the judge's tolerance grows with it,
+	// so that an overloaded machine is not mistaken for a late interrupt)
+	jitterStop := make(chan bool)
+	jitterDone := make(chan int, 1)
+	go func() {
+		worst := 0
+		for {
+			select {
+			case <-jitterStop:
+				jitterDone <- worst
+				return
+			default:
+			}
+			t := time.Now()
+			time.Sleep(time.Millisecond)
+			if d := int(time.Since(t)/time.Millisecond) - 1; d > worst {
+				worst = d
+			}
+		}
+	}()
 	var wg sync.WaitGroup
 	longCtx := rng.Intn(3) == 0
 	var late []context.CancelFunc
 	var lateMu sync.Mutex
 	for k := 0; k < par; k++ {
 		name := loopNames[rng.Intn(len(loopNames))]
-		if longCtx {
-			name = "finite"
+		if longCtx || rng.Intn(6) == 0 {
+			name = finiteNames[rng.Intn(len(finiteNames))]
 		}
 		deadline := []int{0, 1, 5, 20, 50, 120, 300}[rng.Intn(7)]
 		cancelAt := -1
@@ -230,7 +277,7 @@ func timeCase(id int) O {
 			defer wg.Done()
 			r := &res[k]
 			ctx, cancel := context.WithTimeout(context.Background(), time.Duration(r.DeadlineMs)*time.Millisecond)
-			if longCtx && r.Script == "finite" {
+			if longCtx && isFinite(r.Script) {
 				// a context that outlives the execution: whatever the execution started must
 				// end with the call, not with the context
 				ctx, cancel = context.WithCancel(context.Background())
@@ -244,7 +291,7 @@ func timeCase(id int) O {
 			if r.CancelMs >= 0 {
 				go func() { time.Sleep(time.Duration(r.CancelMs) * time.Millisecond); cancel() }()
 			}
-			if !(longCtx && r.Script == "finite") {
+			if !(longCtx && isFinite(r.Script)) {
 				go func() { <-ctx.Done(); r.CtxDone = ms() }()
 			}
 			done := make(chan bool, 1)
@@ -293,6 +340,8 @@ func timeCase(id int) O {
 		}(k)
 	}
 	wg.Wait()
+	close(jitterStop)
+	jitter := <-jitterDone
 	// settle, then count goroutines again
 	gAfter := 0
 	for tries := 0; tries < 40; tries++ {
@@ -307,10 +356,10 @@ func timeCase(id int) O {
 	}
 	execs := T{}
 	for _, r := range res {
-		execs = append(execs, O{"script": r.Script, "terminates": r.Script == "finite", "deadline": r.DeadlineMs, "cancel": r.CancelMs, "start": r.Start,
+		execs = append(execs, O{"script": r.Script, "terminates": isFinite(r.Script), "fails": isFinite(r.Script) && r.Script != "finite" && r.Script != "finite-null" && r.Script != "finite-nothing", "deadline": r.DeadlineMs, "cancel": r.CancelMs, "start": r.Start,
 			"ctxDone": r.CtxDone, "ret": r.Ret, "err": r.Err, "hung": r.Hung, "viaWalk": r.ViaWalk, "walkNode": r.WalkNode, "walkErrText": r.WalkErrText != ""})
 	}
-	return O{"id": id, "kind": "time", "par": par, "execs": execs, "gBefore": gBefore, "gAfter": gAfter, "raw": enc.Canon(O{"par": par})}
+	return O{"id": id, "kind": "time", "par": par, "execs": execs, "gBefore": gBefore, "gAfter": gAfter, "jitter": jitter, "raw": enc.Canon(O{"par": par})}
 }
 
 func main() {
